@@ -135,6 +135,12 @@ def build(ir):
         return ops.Dense(dec(ir["a"]))
     if k == "lazify":
         return cola.lazify(dec(ir["a"]))
+    if k == "arr":  # a plain array operand (only meaningful below a combinator that lazifies it)
+        return dec(ir["a"])
+    if k == "relazify":
+        return cola.lazify(cola.densify(ch[0]))
+    if k == "rdiv":
+        return dec_scalar(ir["c"]) / ch[0]
     if k == "tri":
         return ops.Triangular(dec(ir["a"]), lower=ir["lower"])
     if k == "sparse":
@@ -272,8 +278,18 @@ def _cast(R, dt):
 def denote(ir):
     k = ir["k"]
     ch = [denote(c) for c in ir.get("ch", [])]
-    if k in ("dense", "lazify", "tri", "matmat"):
+    if k in ("dense", "lazify", "tri", "matmat", "arr"):
         return Ref(dec(ir["a"]))
+    if k == "relazify":
+        return ch[0]
+    if k == "rdiv":
+        s = ir["c"]
+        dt = ch[0].dtype
+        if scalar_is_complex(s) and dt.kind != "c":
+            dt = cplx_of(dt)
+        Minv = np.linalg.inv(ch[0].M.astype(np.result_type(dt, np.float64)))
+        c = scalar_value(s)
+        return Ref((c * Minv).astype(dt), np.abs(c * Minv), False)
     if k == "sparse":
         data = dec(ir["data"])
         M = np.zeros(tuple(ir["shape"]), dtype=data.dtype)
